@@ -173,7 +173,44 @@ def check_dyn(case):
     shutil.rmtree(tmp, ignore_errors=True)
 
 
+def check_chain(case):
+  """A configurable class one or two levels below the configurable class that defines the
+  constructor: its own section lists what Gin supplied to *it* -- bound values and the literal
+  defaults of the inherited constructor."""
+  import sys, types  # pylint: disable=g-import-not-at-top,multiple-imports
+  mod = types.ModuleType('c07chain')
+  mod.gin = gin
+  sys.modules['c07chain'] = mod
+  src = ('@gin.configurable\nclass Top:\n  def __init__(self, x=1, y="two", z=None):\n'
+         '    self.got = (x, y, z)\n')
+  names = ['Top']
+  for i in range(case['depth']):
+    src += f'@gin.configurable\nclass Sub{i}({names[-1]}):\n  pass\n'
+    names.append(f'Sub{i}')
+  exec(src, mod.__dict__)  # pylint: disable=exec-used
+  leaf = names[-1]
+  model = {'x': 1, 'y': 'two', 'z': None}
+  for param, value in case['bound']:
+    gin.bind_parameter(f'{leaf}.{param}', value)
+    model[param] = value
+  args = ['P'] if case['positional'] else []
+  obj = getattr(mod, leaf)(*args)
+  want = dict(model, x='P') if args else model
+  require(obj.got == (want['x'], want['y'], want['z']), 'chain-call', lambda: f'{obj.got} vs {want}')
+  text = gin.operative_config_str()
+  for param in 'xyz':
+    found = re.findall(r'^%s\.%s = (.*)$' % (leaf, param), text, flags=re.M)
+    if param == 'x' and args:
+      require(not found, 'chain-caller-supplied-listed', text)
+    else:
+      require(len(found) == 1 and ast.literal_eval(found[0]) == model[param], 'chain-operative-parameter',
+              lambda: f'{leaf}.{param}: expected {model[param]!r}, lines {found}\n{text}')
+  return ok({'kind:chain', f'chain-depth:{case["depth"]}'}, case['depth'] >= 2)
+
+
 def check_case(case):
+  if case.get('kind') == 'chain':
+    return check_chain(case)
   if case.get('kind') == 'dynamic':
     return check_dyn(case)
   labels = set()
@@ -363,6 +400,9 @@ def check_case(case):
   scopes_called = set()
   caller_sup, gin_sup = set(), set()
   n_calls = 0
+  if case.get('finalize_first'):
+    gin.finalize()
+    labels.add('finalized-before-the-first-call')
   for step in case['steps']:
     if step[0] == 'recall-raise':
       # the last successful call is made once more, with one more keyword argument whose value
@@ -605,8 +645,17 @@ def _dyn_case(draw):
           'bound': bound, 'calls': draw(st.lists(st.integers(0, 1), min_size=1, max_size=3))}
 
 
+@st.composite
+def _chain_case(draw):
+  return {'kind': 'chain', 'depth': draw(st.sampled_from([1, 2, 2, 3])),
+          'positional': draw(st.booleans()),
+          'bound': draw(st.lists(st.tuples(st.sampled_from('xyz'), st.sampled_from([5, 'v', [1], None])).map(
+              list), max_size=2, unique_by=lambda b: b[0]))}
+
+
 def strategy():
-  return st.one_of(_static_case(), _static_case(), _static_case(), _static_case(), _dyn_case())
+  return st.one_of(_static_case(), _static_case(), _static_case(), _static_case(), _static_case(),
+                   _dyn_case(), _chain_case())
 
 
 @st.composite
@@ -716,4 +765,5 @@ def _static_case(draw):
     spec = {'n_pos': 0, 'kw': [], 'req': []}
     steps += [['call', pi, entries, spec], ['rebind_key', pi, '<<EQUAL>>', scope, param],
               ['call', pi, entries, spec]]
-  return {'probes': probes, 'macros': macros, 'bindings': bindings, 'steps': steps}
+  return {'probes': probes, 'macros': macros, 'bindings': bindings, 'steps': steps,
+          'finalize_first': draw(st.integers(0, 3)) == 0}
